@@ -28,6 +28,9 @@ func vObserve(q *Queue[int], ref []int, what string) {
 	for i := range s {
 		vAssert(s[i] == ref[i], what+": Slice contents in order")
 	}
+	for i := range s {
+		s[i] = -12345 // the result is a copy: writing to it must not reach the queue
+	}
 	if len(ref) == 0 {
 		vAssert(s == nil, what+": Slice of an empty queue is nil")
 	}
